@@ -7,6 +7,7 @@ import (
 	"fmt"
 	"math"
 	"strings"
+	"sync"
 
 	"github.com/bmeg/grip/kvi"
 	"github.com/bmeg/grip/log"
@@ -38,6 +39,18 @@ func containsPrefix(c string, s []string) bool {
 type KVIndex struct {
 	KV     kvi.KVInterface
 	Fields map[string][]string
+	mu     sync.RWMutex // guards Fields: AddGraph/AddIndex change it while writers index documents
+}
+
+// fields returns a snapshot of the indexed fields
+func (idx *KVIndex) fields() map[string][]string {
+	idx.mu.RLock()
+	defer idx.mu.RUnlock()
+	out := make(map[string][]string, len(idx.Fields))
+	for k, v := range idx.Fields {
+		out[k] = v
+	}
+	return out
 }
 
 // KVTermCount Get all terms and their counts
@@ -61,7 +74,9 @@ func NewIndex(kv kvi.KVInterface) *KVIndex {
 // AddField add new field to be indexed
 func (idx *KVIndex) AddField(path string) error {
 	fk := FieldKey(path)
+	idx.mu.Lock()
 	idx.Fields[path] = strings.Split(path, ".")
+	idx.mu.Unlock()
 	return idx.KV.Set(fk, []byte{})
 }
 
@@ -72,7 +87,9 @@ func (idx *KVIndex) RemoveField(path string) error {
 	ed := EntryPrefix(path)
 	idx.KV.DeletePrefix(fkt)
 	idx.KV.DeletePrefix(ed)
+	idx.mu.Lock()
 	delete(idx.Fields, path)
+	idx.mu.Unlock()
 	return idx.KV.Delete(fk)
 }
 
@@ -110,7 +127,7 @@ func (idx *KVIndex) AddDocTx(tx kvi.KVBulkWrite, docID string, doc map[string]in
 	sdoc := Doc{Entries: [][]byte{}}
 	docKey := DocKey(docID)
 
-	for field, p := range idx.Fields {
+	for field, p := range idx.fields() {
 		x := mapDig(doc, p)
 		if x != nil {
 			term, t := GetTermBytes(x)
